@@ -141,8 +141,15 @@ void *gmsim_lib_malloc(size_t n)
 	return malloc(n);
 }
 
+int g_setup_node = -1;
 int __wrap_getentropy(void *buf, size_t len)
 {
+	if (t_task < 0 && g_setup_node >= 0) {
+		/* entropy an endpoint draws while it is being set up (context setters, tls_init) comes from that endpoint's
+		 * own stream: same stream, same bytes — whether an implementation draws early or during the handshake */
+		rng_bytes(&g_sim.nodes[g_setup_node].ent, buf, len);
+		return 0;
+	}
 	if (t_task < 0) {
 		if (!g_ambient_init) sim_ambient_entropy_seed(1);
 		rng_bytes(&g_ambient_ent, buf, len);
@@ -171,6 +178,7 @@ int __wrap_getentropy(void *buf, size_t len)
 		if (n->efail_errno) errno = n->efail_errno;
 		return -1;
 	}
+	if (n->efail_fired && !n->efail_next_seen) { n->efail_next_seen = 1; n->efail_retried = len == n->efail_len; }
 	rng_bytes(&n->ent, buf, len);
 	n->ent_bytes += len;
 	if (n->ndrawbytes < 160 && len <= 48) {
